@@ -344,23 +344,27 @@ def supplied (ms : List MatrixData) (p : Nat) : List MatrixData := ms.filter (fu
 def entryDur (m : MatrixData) (n frm to : Nat) : Option Int := m.durations[frm * n + to]?
 def entryDist (m : MatrixData) (n frm to : Nat) : Option Int := m.distances[frm * n + to]?
 
+/-- keep the candidate with the greater key among those below `k` -/
+def stepLeft (k : Nat) (best : Option MatrixData) (m : MatrixData) : Option MatrixData :=
+  if m.key < k then
+    match best with
+    | none => some m
+    | some b => if b.key < m.key then some m else some b
+  else best
+
+/-- keep the candidate with the smaller key among those above `k` -/
+def stepRight (k : Nat) (best : Option MatrixData) (m : MatrixData) : Option MatrixData :=
+  if k < m.key then
+    match best with
+    | none => some m
+    | some b => if m.key < b.key then some m else some b
+  else best
+
 /-- the supplied matrix with the greatest key below `k` (`none` if there is none) -/
-def specLeft (ms : List MatrixData) (k : Nat) : Option MatrixData :=
-  ms.foldl (fun best m =>
-    if m.key < k then
-      match best with
-      | none => some m
-      | some b => if b.key < m.key then some m else some b
-    else best) none
+def specLeft (ms : List MatrixData) (k : Nat) : Option MatrixData := ms.foldl (stepLeft k) none
 
 /-- the supplied matrix with the least key above `k` -/
-def specRight (ms : List MatrixData) (k : Nat) : Option MatrixData :=
-  ms.foldl (fun best m =>
-    if k < m.key then
-      match best with
-      | none => some m
-      | some b => if m.key < b.key then some m else some b
-    else best) none
+def specRight (ms : List MatrixData) (k : Nat) : Option MatrixData := ms.foldl (stepRight k) none
 
 /-- the supplied matrix valid exactly at key `k` -/
 def specAt (ms : List MatrixData) (k : Nat) : Option MatrixData := ms.find? (fun m => m.key == k)
